@@ -45,6 +45,9 @@ pub fn build(spec: &FontSpec) -> Vec<u8> {
     if let Some(m) = &spec.morx {
         tables.push((*b"morx", aat::morx(m, spec.num_glyphs)));
     }
+    if let Some(f) = &spec.feat {
+        tables.push((*b"feat", aat::feat(f)));
+    }
     tables.sort_by(|a, b| a.0.cmp(&b.0));
 
     let num = tables.len();
